@@ -4,8 +4,8 @@
 
   For `X ∈ [0.99, 1)` the library computes `ln X = 2·artanh(..) + ln 9.9 − ln 10` (recorded finding
   `log-just-below-one-cancellation`).  The absolute error of the working value is
-      `1/2 + 1/2`  (the table constants `ln 10`, `ln 9.9`)  `+ 2 + 178·S`  (first reduction `10X/9.9`, quotient, series,
-      `S ≤ 1/99`)  `+ 2`  (the two final subtractions, `LogAcc.logTail_m1`; the relative bound of
+      `1/2 + 1/2`  (the table constants `ln 10`, `ln 9.9`)  `+ 2 + 217·S`  (first reduction `10X/9.9`, quotient, series,
+      `S ≤ 1.01/198`)  `+ 2`  (the two final subtractions, `LogAcc.logTail_m1`; the relative bound of
       `LogAcc.logTail_spec` gives `19.6` here)  `+ lam·2R`,
   together `≤ 6.9·10^-57` (`LogAcc.errLog` gives `2.5·10^-56`), against `|ln X|/(3·10^34) ≥ (1−X)/(3·10^34)`.
 
@@ -26,8 +26,8 @@ local notation "𝔳[" d "]" => Spec.interp (Gen.Decimal.lo d) (Gen.Decimal.hi d
 /-- the final real-number assembly for an argument in `[0.99, 1)` -/
 theorem near_one_total (S T R l10 lM L10 LM Lq x : ℝ) (lamr : ℝ) (hlam0 : 0 ≤ lamr)
     (hlam : lamr ≤ 1 / (6 * 10 ^ 56))
-    (hR0 : 0 ≤ R) (hRS : R ≤ S) (hS : S ≤ 1 / 99) (hT : 2 * T ≤ 1 / 10 ^ 60)
-    (hcore : |2 * R - Lq| ≤ 2 * T + (2 * 1 + 178 * S) / 10 ^ 57)
+    (hR0 : 0 ≤ R) (hRS : R ≤ S) (hS : S ≤ 101 / 19800) (hT : 2 * T ≤ 1 / 10 ^ 60)
+    (hcore : |2 * R - Lq| ≤ 2 * T + (2 * 1 + 217 * S) / 10 ^ 57)
     (h10 : |l10 - L10| ≤ 1 / 2 / 10 ^ 57) (hM : |lM - LM| ≤ 1 / 2 / 10 ^ 57)
     (hxB : |x - (|l10 - 2 * R - lM|)| ≤ 2 / 10 ^ 57 + lamr * (2 * R)) :
     |x - (|-L10 + LM + Lq|)| ≤ 69 / 10 ^ 58 := by
@@ -36,17 +36,17 @@ theorem near_one_total (S T R l10 lM L10 LM Lq x : ℝ) (lamr : ℝ) (hlam0 : 0 
   have hMt := abs_le.mp hM
   have hxb := abs_le.mp hxB
   have hnegL : |-L10 + LM + Lq| = |-(-L10 + LM + Lq)| := (abs_neg _).symm
-  have key : |(|l10 - 2 * R - lM|) - (|-L10 + LM + Lq|)| ≤ 1 / 10 ^ 60 + (3 + 178 * S) / 10 ^ 57 := by
+  have key : |(|l10 - 2 * R - lM|) - (|-L10 + LM + Lq|)| ≤ 1 / 10 ^ 60 + (3 + 217 * S) / 10 ^ 57 := by
     rw [hnegL]
     refine le_trans (abs_abs_sub_abs_le_abs_sub _ _) ?_
     rw [abs_le]
     constructor <;> linarith [hc.1, hc.2, h10t.1, h10t.2, hMt.1, hMt.2]
   have hk := abs_le.mp key
-  have hlr : lamr * (2 * R) ≤ 1 / (6 * 10 ^ 56) * (2 * (1 / 99)) := by
+  have hlr : lamr * (2 * R) ≤ 1 / (6 * 10 ^ 56) * (2 * (101 / 19800)) := by
     apply mul_le_mul hlam (by linarith) (by linarith) (by norm_num)
-  have hnum : (1 : ℝ) / 10 ^ 60 + (3 + 178 * (1 / 99)) / 10 ^ 57 + (2 / 10 ^ 57 + 1 / (6 * 10 ^ 56) * (2 * (1 / 99)))
+  have hnum : (1 : ℝ) / 10 ^ 60 + (3 + 217 * (101 / 19800)) / 10 ^ 57 + (2 / 10 ^ 57 + 1 / (6 * 10 ^ 56) * (2 * (101 / 19800)))
       ≤ 69 / 10 ^ 58 := by norm_num
-  have hS' : (3 + 178 * S) / 10 ^ 57 ≤ (3 + 178 * (1 / 99)) / (10 : ℝ) ^ 57 := by
+  have hS' : (3 + 217 * S) / 10 ^ 57 ≤ (3 + 217 * (101 / 19800)) / (10 : ℝ) ^ 57 := by
     apply div_le_div_of_nonneg_right _ (by positivity); linarith
   rw [abs_le]
   constructor <;> linarith [hk.1, hk.2, hxb.1, hxb.2]
@@ -91,7 +91,7 @@ theorem log_near_one (d : decomposed192) (hd : d.sig.toNat ≠ 0)
     (he : -16000 ≤ d.exp.toInt ∧ d.exp.toInt ≤ 16000)
     (hX0 : 99 / 100 ≤ ((val d : ℚ) : ℝ)) (hX1 : ((val d : ℚ) : ℝ) < 1) :
     ∃ (x : decomposed192) (t : Int8),
-      Gen.decomposed192.log d = .ok (true, x, t) ∧ flag3 t ∧ -5500 ≤ x.exp.toInt ∧ x.exp.toInt ≤ 5500 ∧
+      Gen.decomposed192.log d = .ok (true, x, t) ∧ flag3 t ∧ -5930 ≤ x.exp.toInt ∧ x.exp.toInt ≤ 5500 ∧
       |((val x : ℚ) : ℝ) - (|Real.log ((val d : ℚ) : ℝ)|)| ≤ 69 / 10 ^ 58 := by
   obtain ⟨neg, x, t, e0, M, v, v2, f, R, hlog, ht, hxe0, hxe1, hvd, he0a, he0b, hM0, hM1, hMlo, hMhi,
     h21, h22, h23, hf0, hf20, hf1, hf2, hR1, hR2, hneg, hx⟩ := log_code_m1 d hd he
@@ -137,14 +137,14 @@ theorem log_near_one (d : decomposed192) (hd : d.sig.toNat ≠ 0)
     have : ((f : ℚ) : ℝ) ≤ (((v2 - 1) / (v2 + 1) * ((1 + Root.eps) / (1 - lam)) : ℚ) : ℝ) := Rat.cast_le.mpr hf2
     push_cast at this; exact this
   have hser := log_v2_series (v2 : ℝ) f hV2a hf0 hf20 hfloR hfhiR
-  set S : ℝ := ((Sj f 12 : ℚ) : ℝ) with hS
-  have hFS : (f : ℝ) ≤ S := by rw [hS]; exact_mod_cast Sj_ge f hf0 12
-  have hS2F : S ≤ 2 * (f : ℝ) := by
-    have : ((Sj f 12 : ℚ) : ℝ) ≤ ((2 * f : ℚ) : ℝ) := Rat.cast_le.mpr (Sj_le_two_mul f hf0 hf20 12)
+  set S : ℝ := ((Sj f 16 : ℚ) : ℝ) with hS
+  have hFS : (f : ℝ) ≤ S := by rw [hS]; exact_mod_cast Sj_ge f hf0 16
+  have hS2F : S ≤ 101 / 100 * (f : ℝ) := by
+    have : ((Sj f 16 : ℚ) : ℝ) ≤ ((101 / 100 * f : ℚ) : ℝ) := Rat.cast_le.mpr (Sj_le_101 f hf0 hf20 16)
     push_cast at this; exact this
   have hS0 : 0 ≤ S := le_trans hF0 hFS
-  have hRR1 : S * (1 - ((lam : ℚ) : ℝ)) ^ 38 ≤ (R : ℝ) := by
-    have : ((Sj f 12 * (1 - lam) ^ 38 : ℚ) : ℝ) ≤ ((R : ℚ) : ℝ) := Rat.cast_le.mpr hR1
+  have hRR1 : S * (1 - ((lam : ℚ) : ℝ)) ^ 50 ≤ (R : ℝ) := by
+    have : ((Sj f 16 * (1 - lam) ^ 50 : ℚ) : ℝ) ≤ ((R : ℚ) : ℝ) := Rat.cast_le.mpr hR1
     push_cast at this; exact this
   have hRR2 : (R : ℝ) ≤ S := by rw [hS]; exact_mod_cast hR2
   have hu : (0 : ℝ) < 1 - ((lam : ℚ) : ℝ) := by linarith [show (1 : ℝ) / (6 * 10 ^ 56) < 1 by norm_num]
@@ -172,7 +172,7 @@ theorem log_near_one (d : decomposed192) (hd : d.sig.toNat ≠ 0)
   have hM99r : ((M.toInt : ℤ) : ℝ) = 99 := by rw [hM99]; norm_num
   have hF198 : (f : ℝ) ≤ 1 / 198 := by
     rw [hM99r] at hF2M; norm_num at hF2M ⊢; exact hF2M
-  have hS99 : S ≤ 1 / 99 := by linarith
+  have hS99 : S ≤ 101 / 19800 := by linarith
   -- the logarithm of the argument
   have hLsplit : Real.log ((val d : ℚ) : ℝ)
       = (e0 : ℝ) * Real.log 10 + Real.log (((M.toInt : ℤ) : ℝ) / 10) + Real.log q := by
@@ -207,7 +207,7 @@ theorem log_rel_close21 (a : decomposed192) (ha : a.sig.toNat ≠ 0)
     (he : -16000 ≤ a.exp.toInt ∧ a.exp.toInt ≤ 16000)
     (hX : 1 + 1 / 10 ^ 60 ≤ ((val a : ℚ) : ℝ) ∨ ((val a : ℚ) : ℝ) ≤ 1 - 21 / 10 ^ 23) :
     ∃ (neg : Bool) (x : decomposed192) (t : Int8),
-      Gen.decomposed192.log a = .ok (neg, x, t) ∧ flag3 t ∧ -5500 ≤ x.exp.toInt ∧ x.exp.toInt ≤ 5500 ∧
+      Gen.decomposed192.log a = .ok (neg, x, t) ∧ flag3 t ∧ -5930 ≤ x.exp.toInt ∧ x.exp.toInt ≤ 5500 ∧
       neg = decide (((val a : ℚ) : ℝ) < 1) ∧
       |((val x : ℚ) : ℝ) - (|Real.log ((val a : ℚ) : ℝ)|)| * (30 * 10 ^ 33) ≤ |Real.log ((val a : ℚ) : ℝ)| ∧
       1 / 10 ^ 61 ≤ |Real.log ((val a : ℚ) : ℝ)| ∧ |Real.log ((val a : ℚ) : ℝ)| ≤ 10 ^ 5 := by
